@@ -62,6 +62,12 @@ def gen_transfer_case(rng, run_seed):
                 r = [[c] for c in rest]
                 if rng.random() < 0.5:
                     r.insert(rng.randint(1, len(r)), [winner])
+                    if rng.random() < 0.3:
+                        # the winner shares a (tied) position with a neighbour: only the winner may disappear from it
+                        i = r.index([winner])
+                        j = i - 1 if (i == len(r) - 1 or rng.random() < 0.5) else i + 1
+                        lo, hi = min(i, j), max(i, j)
+                        r = r[:lo] + [sorted(r[lo] + r[hi])] + r[hi + 1 :]
             if len(r) >= 3 and rng.random() < 0.1:
                 # a tied position among non-winners
                 i = next((j for j in range(len(r) - 1) if winner not in r[j] and winner not in r[j + 1]), None)
